@@ -56,7 +56,7 @@ SHARD_TIMEOUT = {"quick": 900, "thorough": 3600}
 
 def bounds(tier):
     return {
-        "quick": {"line": 3, "window_values": "None,0..4", "classes": 3, "history_depth": 3, "history_max_records": 3,
+        "quick": {"line": 3, "window_values": "None,0..4", "classes": 3, "history_depth": 3, "history_max_records": 2,
                   "text_line": 6},
         "thorough": {"line": 5, "window_values": "None,0..6", "classes": 3, "history_depth": 4, "history_max_records": 3,
                      "text_line": 8},
@@ -228,8 +228,13 @@ def add_user(db, r, flip=False):
                    attributes=TAG if r["tag"] else None)
 
 
-def build_db(cls, records):
-    """a fresh real db of class cls holding exactly the model records (native rows come in through text)"""
+def build_db(cls, records, via_text=True):
+    """a fresh real db of class cls holding exactly the model records.
+
+    via_text: native rows come in through load_annotations on generated GFF3 / GenBank text; otherwise through the
+    class constructor's `data` argument (parsed rows / feature dicts)."""
+    import io
+
     from cogent3.core.annotation_db import load_annotations
 
     native = [r for r in records if r["table"] != "user"]
@@ -237,18 +242,37 @@ def build_db(cls, records):
     if native:
         assert all(r["table"] == NATIVE[cls] for r in native)
         if cls == "Gff":
-            path = _tmp(".gff3")
-            with open(path, "w") as f:
-                f.write("##gff-version 3\n" + "\n".join(l for r in native for l in gff_lines(r)) + "\n")
-            db = load_annotations(path=path)
-            os.remove(path)
+            text = "##gff-version 3\n" + "\n".join(l for r in native for l in gff_lines(r)) + "\n"
+            if via_text:
+                path = _tmp(".gff3")
+                with open(path, "w") as f:
+                    f.write(text)
+                db = load_annotations(path=path)
+                os.remove(path)
+            else:
+                from cogent3.parse.gff import gff_parser
+
+                db = db_class(cls)(data=list(gff_parser(io.StringIO(text), attribute_parser=lambda *a: a[0], gff3=True)))
         else:
             for seqid in sorted({r["seqid"] for r in native}):
-                path = _tmp(".gb")
-                with open(path, "w") as f:
-                    f.write(gb_text(seqid, [r for r in native if r["seqid"] == seqid]))
-                db = load_annotations(path=path, db=db)
-                os.remove(path)
+                rows = [r for r in native if r["seqid"] == seqid]
+                if via_text:
+                    path = _tmp(".gb")
+                    with open(path, "w") as f:
+                        f.write(gb_text(seqid, rows))
+                    db = load_annotations(path=path, db=db)
+                    os.remove(path)
+                else:
+                    from cogent3.parse.genbank import location_line_tokenizer, parse_location_line
+
+                    data = []
+                    for i, r in enumerate(rows):
+                        loc = parse_location_line(location_line_tokenizer([gb_location(r["spans"], r["strand"], form=i)]))
+                        feat = {"type": r["biotype"], "location": loc, "gene": [r["name"]]}
+                        if r["tag"]:
+                            feat["note"] = [TAG]
+                        data.append(feat)
+                    db = db_class(cls)(data=data, seqid=seqid, db=db)
     if db is None:
         db = db_class(cls)()
     for i, r in enumerate(records):
@@ -498,25 +522,29 @@ def check_text(acc, line):
 
 
 # ----------------------------------------------------------------------------- part: history (K1)
-def alphabet_records(cls):
-    """the three records that can be added (r1 twice gives duplicates), plus native ones for the other dbs"""
+# A state is (class, multiset of records per table, source kind).  `source` (":memory:" or a file path) is part of the
+# key because serialisation re-creates the object from its init arguments, so later operations read it.
+def alphabet_records():
+    """records that can be added (adding r1 twice gives duplicates)"""
     r1 = rec("user", "s1", "gene", "n1", ((1, 3),), "+", False)
     r2 = rec("user", "s2", "cds", "n2", ((0, 2), (3, 5)), "-", True)
     r3 = rec("user", "s1", "cds", "n2", ((2, 4),), None, False)
     return [r1, r2, r3]
 
 
-def other_dbs(cls):
+def native_records(cls):
+    n1 = rec(NATIVE[cls], "s1", "gene", "g1", ((0, 2),), "+", False)
+    n2 = rec(NATIVE[cls], "s2", "cds", "g2", ((1, 2), (4, 6)), "-", True)
+    return [n1, n2]
+
+
+def other_dbs():
     """fixed argument dbs for update / union: name -> (class, records)"""
-    r1, r2, r3 = alphabet_records(cls)
-    out = {
-        "basic(r1,r2)": ("Basic", [r1, r2]),
-        "basic(empty)": ("Basic", []),
-    }
+    r1, r2, r3 = alphabet_records()
+    out = {"basic(r1,r3)": ("Basic", [r1, r3]), "basic(empty)": ("Basic", [])}
     for c in ("Gff", "Genbank"):
-        n1 = rec(NATIVE[c], "s1", "gene", "g1", ((0, 2),), "+", False)
-        n2 = rec(NATIVE[c], "s2", "cds", "g2", ((1, 2), (4, 6)), "-", True)
-        out[f"{c.lower()}(n1,n2,r1)"] = (c, [n1, n2, r1])
+        n1, n2 = native_records(c)
+        out[f"{c.lower()}(n1,n2,r2)"] = (c, [n1, n2, r2])
     return out
 
 
@@ -524,32 +552,33 @@ def tables_of(cls):
     return {"Basic": {"user"}, "Gff": {"gff", "user"}, "Genbank": {"gb", "user"}}[cls]
 
 
-def history_ops(cls, depth_left):
-    ops = []
-    for i in range(3):
-        ops.append(("add", i))
-    for name in other_dbs(cls):
+SUBSETS = [{"seqid": "s1"}, {"biotype": "cds", "strand": "-"}, {"attributes": TAG}, {"seqid": "s1", "start": 0, "stop": 3},
+           {"name": "%1", "start": 1, "stop": 2, "allow_partial": True}, {"start": 2}, {"start": 1, "stop": 5}]
+COPIES = ("deepcopy", "pickle", "rich_dict", "json", "write_reload", "init_db")
+
+
+def history_ops(cls):
+    ops = [("add", 0), ("add", 1)]
+    for name, (ocls, orecs) in other_dbs().items():
         for seqids in (None, "s1", ["s1", "s2"]):
+            if not orecs and seqids is not None:
+                continue
             ops.append(("update", name, seqids))
         ops.append(("union", name))
-    ops.append(("update_self",))
-    ops.append(("union_self",))
-    for kw in ({"seqid": "s1"}, {"biotype": "cds"}, {"strand": "-"}, {"name": "n%"}, {"attributes": TAG},
-               {"seqid": "s1", "start": 0, "stop": 3}, {"seqid": "s1", "start": 0, "stop": 3, "allow_partial": True},
-               {"start": 2}, {"start": 1, "stop": 5}):
-        ops.append(("subset", kw))
-    for how in ("deepcopy", "pickle", "rich_dict", "json", "write_reload", "init_db"):
-        ops.append((how,))
+    ops += [("update_self",), ("union_self",)]
+    ops += [("subset", kw) for kw in SUBSETS]
+    ops += [(how,) for how in COPIES]
     return ops
 
 
-def model_apply(cls, records, op):
-    """-> (new class, new records) | ('err', exception name).  records: list of model records (the multiset)"""
+def model_apply(state, op):
+    """state = (cls, records, source kind) -> new state | ('err', exception name)"""
+    cls, records, src = state
     kind = op[0]
     if kind == "add":
-        return cls, records + [alphabet_records(cls)[op[1]]]
+        return cls, records + [alphabet_records()[op[1]]], src
     if kind in ("update", "union"):
-        ocls, orecs = other_dbs(cls)[op[1]]
+        ocls, orecs = other_dbs()[op[1]]
         mine, theirs = tables_of(cls), tables_of(ocls)
         if kind == "update":
             if not mine >= theirs:
@@ -560,33 +589,34 @@ def model_apply(cls, records, op):
             else:
                 s = {seqids} if isinstance(seqids, str) else set(seqids)
                 add = [r for r in orecs if r["seqid"] in s]
-            return cls, records + add
+            return cls, records + add, src
         if not orecs:
-            return cls, list(records)  # union with an empty db is a copy of self
+            return cls, list(records), src  # union with an empty db is a copy of self
         if mine >= theirs:
-            return cls, records + list(orecs)
+            return cls, records + list(orecs), "memory"
         if mine <= theirs:
-            return ocls, records + list(orecs)
+            return ocls, records + list(orecs), "memory"
         return ("err", "TypeError")
     if kind == "update_self":
-        return cls, list(records)  # updating from itself changes nothing
+        return cls, list(records), src  # updating from itself changes nothing
     if kind == "union_self":
-        return cls, (records + records) if records else list(records)
+        return (cls, records + records, "memory") if records else (cls, [], src)
     if kind == "subset":
         q = dict(op[1])
         q.setdefault("allow_partial", False)
-        return cls, [r for r in records if selects(r, q)]
-    return cls, list(records)  # all copies / round trips
+        return cls, [r for r in records if selects(r, q)], "memory"
+    if kind == "write_reload":
+        return cls, list(records), "file"
+    return cls, list(records), src  # copies / round trips keep class, records and source
 
 
-def real_apply(cls, db, op):
+def real_apply(db, op, others):
     kind = op[0]
     if kind == "add":
-        add_user(db, alphabet_records(cls)[op[1]])
+        add_user(db, alphabet_records()[op[1]])
         return db
     if kind in ("update", "union"):
-        ocls, orecs = other_dbs(cls)[op[1]]
-        other = build_db(ocls, orecs)
+        other = others(op[1])
         if kind == "update":
             db.update(other, seqids=op[2])
             return db
@@ -622,23 +652,25 @@ def class_name(db):
     return type(db).__name__.replace("AnnotationDb", "")
 
 
-def canon(cls, records):
-    return (cls, tuple(model_rows(records)))
+def canon(state):
+    return (state[0], tuple(model_rows(state[1])), state[2])
 
 
-PROBES = [{}, {"seqid": "s1"}, {"strand": "-"}, {"start": 1, "stop": 4, "allow_partial": True}, {"biotype": "cds", "start": 2}]
+PROBES = [{"seqid": "s1"}, {"strand": "-"}, {"start": 1, "stop": 4, "allow_partial": True}, {"biotype": "cds", "start": 2}]
 
 
 def observe(db):
     """observable content of a db: class, len, all rows, and a few query answers"""
-    out = {"class": class_name(db), "len": len(db), "rows": all_rows(db)}
+    out = {"class": class_name(db), "len": len(db), "rows": all_rows(db),
+           "source": "memory" if str(db.source) == ":memory:" else "file"}
     for i, kw in enumerate(PROBES):
         out[f"q{i}"] = sorted(key_of_row(r, with_tag=False) for r in db.get_features_matching(**kw))
     return out
 
 
-def model_observe(cls, records):
-    out = {"class": cls, "len": len(records), "rows": model_rows(records)}
+def model_observe(state):
+    cls, records, src = state
+    out = {"class": cls, "len": len(records), "rows": model_rows(records), "source": src}
     for i, kw in enumerate(PROBES):
         q = dict(kw)
         q.setdefault("allow_partial", False)
@@ -646,106 +678,123 @@ def model_observe(cls, records):
     return out
 
 
-def op_class(op):
+def op_class(op, state=None):
     kind = op[0]
     if kind == "update":
         return f"update(seqids={'None' if op[2] is None else ('str' if isinstance(op[2], str) else 'list')})"
     if kind == "subset":
         cols = [k for k in op[1] if k not in ("start", "stop", "allow_partial")]
         win = [k for k in ("start", "stop") if k in op[1]]
-        return f"subset({'+'.join(win) or 'no window'}; {'column condition' if cols else 'no column condition'})"
+        return f"subset({'window' if win else 'no window'}; {'column condition' if cols else 'no column condition'})"
     return kind
 
 
 def replay_history(cls, init, hist):
     """re-execute a history on a fresh db; -> ('ok', db) | ('err', name, index of failing op)"""
-    db = build_db(cls, init)
-    c = cls
+    cache = {}
+
+    def others(name):
+        ocls, orecs = other_dbs()[name]
+        return build_db(ocls, orecs, via_text=False)
+
+    db = build_db(cls, init, via_text=False)
     for i, op in enumerate(hist):
-        r = call(real_apply, c, db, op)
+        r = call(real_apply, db, op, others)
         if r[0] != "ok":
             return ("err", r[1], i)
         db = r[1]
-        c = class_name(db)
     return ("ok", db)
 
 
 def run_history(acc, cls, init_name, depth, max_records):
-    inits = initial_dbs(cls)
-    init = inits[init_name]
+    init = initial_dbs(cls)[init_name]
     case0 = {"part": "history", "cls": cls, "init": init_name}
-    seen = {canon(cls, init)}
-    frontier = [(cls, init, [])]
+    s0 = (cls, init, "memory")
+    seen = {canon(s0)}
+    fresh_ok = {}
+    frontier = [(s0, [])]
     acc.state(0)
-    check_state(acc, cls, init, cls, init, [], case0)
+    check_state(acc, cls, init, s0, [], case0, fresh_ok)
     for d in range(1, depth + 1):
         nxt = []
-        for c, records, hist in frontier:
-            for op in history_ops(c, depth - d):
-                m = model_apply(c, records, op)
-                if m[0] != "err" and len(m[1]) > max_records and op[0] not in ("union_self",):
-                    # keep dbs small; the doubled db of union_self is still checked but not expanded
-                    continue
+        for state, hist in frontier:
+            for op in history_ops(state[0]):
+                m = model_apply(state, op)
+                if m[0] == "err" and d > 1:
+                    continue  # class-compatibility errors do not depend on the content: explored from the initial dbs only
                 h2 = hist + [op]
                 acc.transitions += 1
                 acc.traces += 1
-                acc.case(("history", cls, init_name, str(h2)), nontrivial=bool(records))
-                ok = check_state(acc, cls, init, m[0], m[1] if m[0] != "err" else None, h2, case0, expect_err=m[1] if m[0] == "err" else None)
+                acc.case(("history", cls, init_name, str(h2)), nontrivial=bool(state[1]))
+                ok = check_state(acc, cls, init, m, h2, case0, fresh_ok)
                 if m[0] == "err" or not ok or len(m[1]) > max_records:
-                    continue
-                k = canon(m[0], m[1])
+                    continue  # bigger dbs are checked but not expanded
+                k = canon(m)
                 if k not in seen:
                     seen.add(k)
                     acc.state(d)
-                    nxt.append((m[0], m[1], h2))
+                    nxt.append((m, h2))
         frontier = nxt
     acc.sample({"class": cls, "initial": init_name, "depth": depth, "states": len(seen)}, "history")
 
 
-def check_state(acc, cls, init, mcls, mrecords, hist, case0, expect_err=None):
-    """execute hist on a fresh real db and compare with the model value; True when they agree"""
+def check_state(acc, cls, init, m, hist, case0, fresh_ok=None):
+    """execute hist on a fresh real db and compare with the model state m; True when they agree"""
     case = dict(case0, hist=[list(o) for o in hist])
     r = replay_history(cls, init, hist)
     last = op_class(hist[-1]) if hist else "construct"
-    if expect_err is not None:
+    pre = ""
+    if hist and len(hist) > 1:
+        # the source kind of the db the last operation was applied to matters for serialisation
+        prev = (cls, init, "memory")
+        for op in hist[:-1]:
+            prev = model_apply(prev, op)
+        pre = " [file-backed db]" if prev[2] == "file" else ""
+    if m[0] == "err":
         acc.outcome(("err", r[1] if r[0] == "err" else "none"))
-        if r[0] == "err" and r[1] == expect_err and r[2] == len(hist) - 1:
+        if r[0] == "err" and r[1] == m[1] and r[2] == len(hist) - 1:
             return True
-        acc.fail(f"{last}: expected {expect_err}" + (f", raised {r[1]}" if r[0] == "err" else ", returned"), case,
-                 {"got": str(r)[:200], "want": expect_err})
+        acc.fail(f"{last}: expected {m[1]}" + (f", raised {r[1]}" if r[0] == "err" else ", returned") + pre, case,
+                 {"got": str(r)[:200], "want": m[1]})
         return False
     if r[0] == "err":
         acc.outcome(("err", r[1]))
         if r[2] == len(hist) - 1:
-            acc.fail(f"{last}: raised {r[1]}", case, {"got": r[1], "want": "ok"})
+            acc.fail(f"{last}: raised {r[1]}{pre}", case, {"got": r[1], "want": "ok"})
         return False
     got = call(observe, r[1])
-    want = model_observe(mcls, mrecords)
-    acc.outcome((want["class"], want["len"]))
+    want = model_observe(m)
+    acc.outcome((want["class"], want["len"], want["source"]))
     if got[0] != "ok":
-        acc.fail(f"{last}: result db cannot be read, raised {got[1]}", case, {"got": got[1]})
+        acc.fail(f"{last}: result db cannot be read, raised {got[1]}{pre}", case, {"got": got[1]})
         return False
     if got[1] != want:
         key = next(k for k in want if got[1].get(k) != want[k])
-        what = {"class": "class of the result", "len": "len", "rows": "multiset of records"}.get(key, "query answers on the result")
-        acc.fail(f"{last}: {what}", case, {"observable": key, "got": str(got[1][key])[:500], "want": str(want[key])[:500]})
+        what = {"class": "class of the result", "len": "number of records", "rows": "multiset of records",
+                "source": "source of the result"}.get(key, "query answers on the result")
+        if key == "len":
+            what += " (more than the model)" if got[1]["len"] > want["len"] else " (fewer than the model)"
+        acc.fail(f"{last}: {what}{pre}", case, {"observable": key, "got": str(got[1][key])[:500], "want": str(want[key])[:500]})
         return False
-    # differential: a fresh db built from the model value answers the same
-    fresh = call(lambda: observe(build_db(mcls, mrecords)))
-    if fresh != ("ok", want):
-        acc.fail("fresh db built from the model records differs from the model", case, {"got": str(fresh)[:300]})
-        return False
+    # differential: a fresh db built from the model value (through text loading) answers the same; once per model value
+    k = canon(m)[:2]
+    if fresh_ok is not None and k not in fresh_ok:
+        w = dict(want, source="memory")
+        fresh = call(lambda: observe(build_db(m[0], m[1], via_text=True)))
+        fresh_ok[k] = fresh == ("ok", w)
+        if not fresh_ok[k]:
+            acc.fail("fresh db built from the model records differs from the model", case, {"got": str(fresh)[:300]})
+            return False
     return True
 
 
 def initial_dbs(cls):
-    r1, r2, r3 = alphabet_records(cls)
-    out = {"empty": [], "user(r1,r2)": [r1, r2], "user(r1,r1)": [r1, r1]}
+    r1, r2, r3 = alphabet_records()
+    out = {"empty": [], "user(r1,r3)": [r1, r3]}
     if cls != "Basic":
-        n1 = rec(NATIVE[cls], "s1", "gene", "g1", ((0, 2),), "+", False)
-        n2 = rec(NATIVE[cls], "s2", "cds", "g2", ((1, 2), (4, 6)), "-", True)
+        n1, n2 = native_records(cls)
         out["native(n1,n2)"] = [n1, n2]
-        out["native(n1)+user(r1)"] = [n1, r1]
+        out["native(n2)+user(r1)"] = [n2, r1]
     return out
 
 
@@ -796,12 +845,10 @@ def replay(case):
     elif part == "history":
         hist = [_op_from_json(o) for o in case["hist"]]
         init = initial_dbs(case["cls"])[case["init"]]
-        c, records = case["cls"], init
-        for op in hist[:-1]:
-            c, records = model_apply(c, records, op)
-        m = model_apply(c, records, hist[-1]) if hist else (c, records)
-        check_state(acc, case["cls"], init, m[0], m[1] if m[0] != "err" else None, hist, {k: case[k] for k in ("part", "cls", "init")},
-                    expect_err=m[1] if m[0] == "err" else None)
+        m = (case["cls"], init, "memory")
+        for op in hist:
+            m = model_apply(m, op)
+        check_state(acc, case["cls"], init, m, hist, {k: case[k] for k in ("part", "cls", "init")}, {})
     return [(sig, rec_["cases"][0]["detail"]) for sig, rec_ in acc.failures.items()]
 
 
